@@ -37,6 +37,71 @@ fn program(name: &'static str, progs: Vec<Vec<COp>>, two_subs: bool, hold: bool)
     })
 }
 
+/// `streams` StreamingPulls are open on one subscription; every one of them sends a control message with TWO parts
+/// (an ack and a deadline extension) at the same time, while
+/// a Publish and a GetSubscription arrive.  Everything must be answered (a request that needs two mailbox slots at once
+/// must not hold one while waiting for the other).
+fn two_part_control_scenario(streams: usize) -> ScenFn {
+    scen!([] |cx| {
+        let a = cx.api.clone();
+        must!(cx, "setup:create-topic", { let a = a.clone(); async move { a.create_topic(T0).await } });
+        must!(cx, "setup:create-sub", { let a = a.clone(); async move { a.create_sub(S0, T0, 10, None).await } });
+        let msgs: Vec<Msg> = (0..streams).map(|i| (format!("m{}", i).into_bytes(), vec![])).collect();
+        must!(cx, "setup:publish", { let a = a.clone(); async move { a.publish(T0, msgs).await } });
+        let go = std::sync::Arc::new(tokio::sync::Notify::new());
+        let ready = std::sync::Arc::new(std::sync::atomic::AtomicUsize::new(0));
+        let sent = std::sync::Arc::new(std::sync::atomic::AtomicUsize::new(0));
+        let mut hs = vec![];
+        for i in 0..streams {
+            let (a2, go2, ready2, sent2) = (a.clone(), go.clone(), ready.clone(), sent.clone());
+            hs.push(cx.spawn(&format!("client:{:02}-stream", i), async move {
+                // max_outstanding 1: every stream takes exactly one message
+                let (tx, r) = a2.streaming_pull(first_stream_req(S0, 1)).await;
+                let mut st = match r { Ok(s) => s, Err(_) => return };
+                // (which stream holds which of the messages is up to the server; the ids sent below need not be live)
+                let mine = format!("{}", 7000 + i);
+                ready2.fetch_add(1, std::sync::atomic::Ordering::SeqCst);
+                go2.notified().await;
+                let req = deltio::pubsub_proto::StreamingPullRequest { ack_ids: vec!["9999".into()], modify_deadline_ack_ids: vec![mine], modify_deadline_seconds: vec![30], ..Default::default() };
+                let _ = tx.send(req).await;
+                sent2.fetch_add(1, std::sync::atomic::Ordering::SeqCst);
+                while let Ok(Some(_)) = st.message().await {}
+                drop(tx);
+            }));
+        }
+        {
+            let was = cx.freeze(true);
+            let q = cx.quiesce().await;
+            cx.freeze(was);
+            tryv!(q);
+        }
+        let n_ready = ready.load(std::sync::atomic::Ordering::SeqCst);
+        if n_ready != streams {
+            return ScenarioOut::viol("two-part-control/setup", format!("only {} of {} streams opened", n_ready, streams));
+        }
+        go.notify_waiters();
+        let p = { let a = a.clone(); cx.spawn("client:90-publish", async move { a.publish(T0, vec![(b"late".to_vec(), vec![])]).await.is_ok() }) };
+        let g = { let a = a.clone(); cx.spawn("client:91-get-sub", async move { a.get_sub(S0).await.is_ok() }) };
+        tryv!(cx.quiesce().await);
+        tryv!(cx.advance_ms(1_000).await);
+        let n_sent = sent.load(std::sync::atomic::Ordering::SeqCst);
+        if !p.is_finished() || !g.is_finished() {
+            return ScenarioOut::viol("two-part-control/hang", format!("{} streams sent a two-part control message at once ({} got it off): one second after quiescence Publish finished = {}, GetSubscription finished = {}", streams, n_sent, p.is_finished(), g.is_finished()));
+        }
+        // the server still answers, and the subscription still serves requests
+        let a3 = a.clone();
+        let alive = tryv!(cx.settle("probe:alive", async move { (a3.get_sub(S0).await.is_ok(), a3.publish(T0, vec![(b"p".to_vec(), vec![])]).await.is_ok()) }).await);
+        if alive != (true, true) {
+            return ScenarioOut::viol("two-part-control/server-dead", format!("after the burst GetSubscription / Publish answered {:?}", alive));
+        }
+        for h in &hs {
+            h.abort();
+        }
+        tryv!(cx.quiesce().await);
+        ScenarioOut::ok(format!("streams={} sent={}", streams, n_sent))
+    })
+}
+
 pub fn units(thorough: bool) -> Vec<Unit> {
     use COp::*;
     let mut v = vec![];
@@ -110,6 +175,11 @@ pub fn units(thorough: bool) -> Vec<Unit> {
         });
         v.push(explore_unit("sched/push-loop+create+delete", "the push loop ticks while push and pull subscriptions are created, one is deleted, and a Publish, a Get and a List run; termination, plus the lock nesting of everything executed (lock-order analysis)", Bounds::new(d), ExecCfg { push_interval_ms: Some(1000), ..Default::default() }, f));
     }
+    // two-part StreamingPull control messages sent by several streams at once
+    for (cap, streams) in [(1usize, 1usize), (1, 2), (2, 2), (2, 3)] {
+        v.push(explore_unit(format!("sched/cap{}/{}streams-two-part-control", cap, streams), format!("mailbox capacity {}: {} open streams each send a control message with an ack and an extension at the same instant, next to a Publish and a GetSubscription", cap, streams), Bounds::new(if thorough { 3 } else { 1 }), ExecCfg { caps: (cap, cap), ..Default::default() }, two_part_control_scenario(streams)));
+    }
+    v.push(explore_unit("sched/cap16/18streams-two-part-control", "shipped mailbox capacity 16: 18 open streams each send a two-part control message at the same instant, next to a Publish and a GetSubscription", Bounds::new(0), ExecCfg::default(), two_part_control_scenario(18)));
     // the shipped capacity (16): Delete first, 16 requests behind it, then the Publish
     let mut progs = vec![vec![DeleteSub(S0)]];
     let menu = [PullNow(S0, 10), AckHeld(S0, 0), GetSub(S0), ModHeld(S0, 0, 30)];
